@@ -10,9 +10,12 @@ import (
 	"flag"
 	"fmt"
 	"go/ast"
+	"go/token"
 	"go/types"
 	"os"
 	"path/filepath"
+	"runtime/debug"
+	"runtime/pprof"
 	"sort"
 	"strings"
 	"sync"
@@ -46,21 +49,22 @@ type RunConfig struct {
 
 func NewEngine(l *Loaded, eo EntryOpts, rc RunConfig) (*Engine, error) {
 	e := &Engine{
-		prog:        l.Prog,
-		mainPkg:     l.Main,
-		harnessPkgs: map[*ssa.Package]bool{l.Main: true},
-		opts:        eo,
-		known:       rc.Known,
-		covers:      map[string]int{},
-		stubsHit:    map[string]int{},
-		encodedFns:  map[string]int{},
-		fnIDs:       map[*ssa.Function]uint64{},
-		redirects:   map[string]*ssa.Function{},
-		initSet:     map[*ssa.Package]bool{},
-		siteCache:   map[string]bool{},
-		pkgDir:      l.PkgDir,
-		verbose:     rc.Verbose,
-		deadline:    rc.Deadline,
+		prog:         l.Prog,
+		mainPkg:      l.Main,
+		harnessPkgs:  map[*ssa.Package]bool{l.Main: true},
+		opts:         eo,
+		known:        rc.Known,
+		covers:       map[string]int{},
+		stubsHit:     map[string]int{},
+		encodedFns:   map[string]int{},
+		fnIDs:        map[*ssa.Function]uint64{},
+		redirects:    map[string]*ssa.Function{},
+		initSet:      map[*ssa.Package]bool{},
+		siteCache:    map[string]bool{},
+		sitePosCache: map[token.Pos]bool{},
+		pkgDir:       l.PkgDir,
+		verbose:      rc.Verbose,
+		deadline:     rc.Deadline,
 	}
 	e.entry = l.Main.Func(eo.Name)
 	if e.entry == nil {
@@ -351,7 +355,19 @@ func main() {
 	seed := fs.Int64("seed", 0, "seed (recorded; exploration is deterministic)")
 	conformance := fs.Int("conformance", 0, "random concrete runs per entry executed both in the engine and natively (traces must agree)")
 	stripImports := fs.String("strip-imports", "", "blank imports dropped from the analysed copy (comma-separated)")
+	cpuprof := fs.String("cpuprofile", "", "write a CPU profile of the run to this file")
 	fs.Parse(os.Args[2:])
+	if os.Getenv("GOGC") == "" {
+		// paths are short-lived re-executions: trade memory for fewer collections
+		debug.SetGCPercent(400)
+		debug.SetMemoryLimit(16 << 30) // collect harder instead of growing past 16 GiB
+	}
+	if *cpuprof != "" {
+		if f, err := os.Create(*cpuprof); err == nil {
+			pprof.StartCPUProfile(f)
+			defer pprof.StopCPUProfile()
+		}
+	}
 
 	start := time.Now()
 	lc := LoadConfig{PkgDir: *pkgDir, Harness: splitList(*harness), RTDecl: *rt, Models: splitList(*models), ExtraPkgs: splitList(*extra), StripImports: splitList(*stripImports)}
@@ -537,6 +553,13 @@ func main() {
 			total += r.Stats.Paths
 		}
 		fmt.Printf("OK property=%s tier=%s entries=%d paths=%d wall=%.1fs\n", *property, *tier, len(results), total, time.Since(start).Seconds())
+	}
+	pprof.StopCPUProfile()
+	if mp := os.Getenv("GOSX_MEMPROFILE"); mp != "" {
+		if f, err := os.Create(mp); err == nil {
+			pprof.WriteHeapProfile(f)
+			f.Close()
+		}
 	}
 	os.Exit(exit)
 }
